@@ -671,7 +671,8 @@ func H_C09_returnSequences() {
 
 // H_C09_nestedNilReturn: a return of nil executed inside an if, try, range or included
 // file after a return of a value: it is the last return executed, so exec evaluates to nil.
-// (Recorded as a known finding: the value of the earlier return survives.)
+// (Failed on the pinned tree - the value of the earlier return survived - and was first
+// recorded as a known finding; repaired by fix 2f91add.)
 //
 //gosym:reach returned
 func H_C09_nestedNilReturn() {
